@@ -380,6 +380,18 @@ pub fn run(prop: &str, tier: &str, only: Option<String>) -> i32 {
         "C01" => Box::new(|e: &Entry| !e.derived),
         _ => Box::new(|_e: &Entry| true),
     };
+    if prop == "C04" {
+        // the model is believed only while it reproduces the bytes desert-rust did not write
+        match refmodel::golden::check_anchor() {
+            Ok(n) => {
+                run.extra.insert("scala_golden_bytes_reproduced_by_the_model".into(), json!(n));
+            }
+            Err(e) => {
+                eprintln!("MACHINERY: the reference model lost its anchor to the Scala golden file: {e}");
+                return 2;
+            }
+        }
+    }
     let its = items(&u, &run, &*filter);
     let types: std::collections::BTreeSet<&str> = its.iter().map(|i| i.e.name.as_str()).collect();
     let sel = run.only.clone();
